@@ -3,6 +3,7 @@ package main
 import (
 	"fmt"
 	"go/constant"
+	"math/big"
 	"go/token"
 	"go/types"
 	"sort"
@@ -614,6 +615,21 @@ func (f *FuncFacts) loopCondAtom(b *ssa.BasicBlock, iff *ssa.If, succ int) (stri
 	// range loops: name what is ranged over
 	switch cond := iff.Cond.(type) {
 	case *ssa.BinOp:
+		if cond.Op == token.LEQ && succ == 0 && isInductionVar(stripConv(cond.X)) {
+			if k, ok := intConst(cond.Y); ok {
+				return "each(#" + new(big.Int).Add(k, big.NewInt(1)).String() + ")", true
+			}
+		}
+		if cond.Op == token.LSS && succ == 0 && isInductionVar(stripConv(cond.X)) {
+			// for i := 0; i < B; i++  ==  for i := range B
+			y := stripConv(cond.Y)
+			if call, ok := y.(*ssa.Call); ok {
+				if bi, ok := call.Common().Value.(*ssa.Builtin); ok && bi.Name() == "len" {
+					return "each(" + f.c.term(call.Common().Args[0]) + ")", true
+				}
+			}
+			return "each(#" + f.c.term(y) + ")", true
+		}
 		if cond.Op == token.LSS {
 			if call, ok := cond.Y.(*ssa.Call); ok {
 				if bi, ok := call.Common().Value.(*ssa.Builtin); ok && bi.Name() == "len" && strings.HasPrefix(b.Comment, "rangeindex") {
@@ -703,6 +719,7 @@ func simplifyAtoms(atoms []string) []string {
 func (f *FuncFacts) Accepts() []*Guard {
 	rejEdge, _ := f.rejEdges()
 	var out []*Guard
+	plainAccept := false
 	for _, ri := range f.rets {
 		if ri.kind == retFail {
 			continue
@@ -738,6 +755,15 @@ func (f *FuncFacts) Accepts() []*Guard {
 			kind = "forward " + ri.code
 		case retMaybe:
 			kind = "maybe " + ri.code
+		}
+		if kind == "accept" {
+			// a success return that carries no value: where exactly the function returns is a matter
+			// of layout (guarded block vs. early return); what it did before is in the guards/effects
+			if plainAccept {
+				continue
+			}
+			plainAccept = true
+			atoms = []string{"·"}
 		}
 		out = append(out, &Guard{Fn: funcName(f.fn), Atoms: atoms, Code: kind, Pos: f.retPos(ri), blk: ri.blk})
 	}
@@ -996,4 +1022,31 @@ func (f *FuncFacts) retPos(r *retInfo) token.Pos {
 		return r.ins.Pos()
 	}
 	return f.blockPos(r.blk)
+}
+
+// isInductionVar: loop phi that starts at 0 and is incremented by 1 on every back edge — the
+// index of `for i := 0; i < n; i++`, which is the same loop as `for i := range n`.
+func isInductionVar(v ssa.Value) bool {
+	ph, ok := v.(*ssa.Phi)
+	if !ok || len(ph.Edges) != 2 {
+		return false
+	}
+	zero, step := false, false
+	for _, e := range ph.Edges {
+		e = stripConv(e)
+		if k, ok := intConst(e); ok && k.Sign() == 0 {
+			zero = true
+			continue
+		}
+		if b, ok := e.(*ssa.BinOp); ok && b.Op == token.ADD {
+			x, y := stripConv(b.X), stripConv(b.Y)
+			if k, ok := intConst(y); ok && k.IsInt64() && k.Int64() == 1 && x == ssa.Value(ph) {
+				step = true
+			}
+			if k, ok := intConst(x); ok && k.IsInt64() && k.Int64() == 1 && y == ssa.Value(ph) {
+				step = true
+			}
+		}
+	}
+	return zero && step
 }
